@@ -124,7 +124,7 @@ class Labware:
             A dictionary that names the content of non-empty real wells for composition tracking.
         """
         # sanity checking
-        if not isinstance(rows, int) or rows < 1:
+        if not isinstance(rows, int) or rows < 1 or rows > 26:
             raise ValueError(f"Invalid rows: {rows}")
         if not isinstance(columns, int) or columns < 1:
             raise ValueError(f"Invalid columns: {columns}")
@@ -134,7 +134,9 @@ class Labware:
             raise ValueError(f"Invalid max_volume: {max_volume}")
         if virtual_rows is not None and rows != 1:
             raise ValueError("When using virtual_rows, the number of rows must be == 1")
-        if virtual_rows is not None and virtual_rows < 1:
+        if virtual_rows is not None and (
+            not isinstance(virtual_rows, int) or virtual_rows < 1 or virtual_rows > 26
+        ):
             raise ValueError(f"Invalid virtual_rows: {virtual_rows}")
         if virtual_rows and not isinstance(self, Trough):
             warnings.warn(
@@ -155,8 +157,8 @@ class Labware:
             rows,
             columns,
         ), f"Invalid shape of initial_volumes: {initial_volumes.shape}"
-        if np.any(initial_volumes < 0):
-            raise ValueError("initial_volume cannot be negative")
+        if not np.all(initial_volumes >= 0):
+            raise ValueError("initial_volume cannot be negative or NaN")
         if np.any(initial_volumes > max_volume):
             raise ValueError("initial_volume cannot be above max_volume")
 
@@ -398,6 +400,8 @@ class Trough(Labware):
             A list/tuple of names for the column-wise contents of the troughs.
             If provided, these names are used for composition tracking.
         """
+        if not isinstance(columns, int) or columns < 1:
+            raise ValueError(f"Invalid columns: {columns}")
         # Convert lazily scalar-valued parameters to lists
         if column_names is None:
             column_names = [None] * columns
